@@ -133,4 +133,16 @@ PROPS = {
         "range coder case reaching a modelled panic site's boundary",
         "C02_encoder_refines / C02_decoder_refines: none of the six modelled panic / overflow sites of queue.rs is "
         "reachable from new() / from_compressed().", 'Range coder part: theorems about Model/Range.v (machine level, wrapping SB-bit arithmetic, six modelled panic sites proved unreachable) refined to the exact big-number spec Model/RangeSpec.v; messages shorter than 2^64 symbols (usize counter of held-back words). No axioms.', "Coq proof + debug-build correspondence"),
+    "C11_rare": _part(
+        ["Props.C11:C11_seal_pins_two_word_state,C11_one_word_seal_pins"],
+        [("fam_range", "gen_seal_rare", 300, 12000)],
+        "two-word-state message whose final interval was solved into a corner of the sealing rule",
+        "Same theorems as C11; this part only adds the generator that SOLVES for the last symbol so that the final "
+        "interval lies in the measure-zero corners of the sealing rule (low word of lower+range all ones; sealed "
+        "while Inverted with the seal point wrapping), which random messages reach with probability 2^-WordBits.",
+        "Generator strength only; no additional trust.", "Coq proof + steered correspondence"),
+    "C06_rare": _part(
+        ["Props.RangeExtra:C06_range"], [("fam_range", "gen_seal_rare", 150, 6000)],
+        "sealed words of a message ending in a corner of the sealing rule",
+        "Seal words in the corners of the sealing rule are compared word for word.", "-", "correspondence"),
 }
